@@ -26,6 +26,76 @@ def plural_oracle(run, locales, counts):
     return path
 
 
+L2_LOCS = ["en", "fr", "ru", "ar", "pl", "ja", "cy", "ga", "lv", "he", "pt", "pt-PT", "en-GB", "fr-CA"]
+L2_COUNTS = list(range(0, 201)) + [1000, 1000000, 1000000001]
+FORMS = ["zero", "one", "two", "few", "many", "other"]
+
+
+def run_l2(run):
+    """run-time selection: every locale (incl. regional variants that share a language), counts 0..=200 and large ones, in two
+    orders of the locales within one process (the plural-rules cache must not leak between locales)"""
+    import os
+    import probe
+    oracle = plural_oracle(run, L2_LOCS, [str(n) for n in L2_COUNTS])
+    def S(text):
+        return {"t": "str", "s": probe.to_syms(text)}
+    entries = [["k_" + f, S("c-" + f)] for f in FORMS] + [["o_ordinal_" + f, S("o-" + f)] for f in FORMS] \
+        + [["m_one", S("c-one")], ["m_other", S("c-other")]]
+    node = {"t": "map", "e": entries}
+    files = [[l, node] for l in L2_LOCS]
+    rust = r"""
+    let counts: Vec<u64> = (0..=200u64).chain([1000u64, 1000000, 1000000001]).collect();
+    let fwd: Vec<Locale> = Locale::get_all().to_vec();
+    let mut rev = fwd.clone(); rev.reverse();
+    for (pass, locs) in [(1, &fwd), (2, &rev)] {
+        for l in locs.iter().copied() {
+            for &n in &counts {
+                let line = |key: &str, out: String| println!("{{\"call\":1,\"pass\":{},\"locale\":\"{}\",\"n\":{},\"key\":\"{}\",\"outcome\":\"Ok\",\"out\":\"{}\"}}", pass, l.as_str(), n, key, esc(&out));
+                line("k", td_string!(l, k, count = n).to_string());
+                line("o", td_string!(l, o, count = n).to_string());
+                line("m", td_string!(l, m, count = n).to_string());
+                if pass == 1 && n <= 20 {
+                    line("k", render(td!(l, k, count = move || n)));
+                    line("tp", leptos_i18n::plurals::td_plural!(l, count = move || n, one => "one", _ => "other").to_string());
+                    line("tpo", leptos_i18n::plurals::td_plural_ordinal!(l, count = move || n, one => "one", _ => "other").to_string());
+                }
+            }
+        }
+    }
+    String::new()"""
+    project = {"name": "c05probe", "cfg": {"default": "en", "locales": L2_LOCS}, "files": files,
+               "calls": [{"id": 1, "flav": "raw", "rust": rust}]}
+    results, log = probe.build_and_run(run, [project], tag="_c05")
+    r = results["c05probe"]
+    if not r["built"]:
+        run.violation("l2-build", "the plural probe does not compile", {"build_log": r["build_log"] or log[-3000:]})
+        return 0
+    trace = []
+    for ev in r["events"]:
+        if "key" not in ev:
+            continue
+        trace.append({"ev": "Render", "case": 1, "key": ev["key"], "locale": ev["locale"], "tok": str(ev["n"]), "pass": ev["pass"],
+                      "outcome": ev["outcome"], "out": probe.to_syms(ev["out"])})
+    if len(trace) < 1000:
+        raise vp.ToolError("plural probe produced %d events: %s" % (len(trace), r.get("stderr", "")[-300:]))
+    trace.append({"ev": "End"})
+    wd = os.path.join(run.workdir, "l2")
+    os.makedirs(wd, exist_ok=True)
+    tpath, cpath = os.path.join(wd, "trace.ndjson"), os.path.join(wd, "cases.ndjson")
+    vp.write_ndjson(tpath, trace)
+    vp.write_ndjson(cpath, [{"id": 1, "abs": {}}])
+    summary, rejects, _ = vp.trace_validate("Trace_Plurals", "Trace_Plurals.cfg", wd, tpath, cpath, env={"ORACLE": oracle}, timeout=3600)
+    if summary["consumed"] != summary["events"]:
+        raise vp.ToolError("trace spec consumed %s of %s events" % (summary["consumed"], summary["events"]))
+    run.traces += 1
+    run.events += summary["events"]
+    for rj in rejects:
+        ev = trace[rj["l"] - 1]
+        run.violation("l2;key=%s;locale=%s;count=%s;pass=%s" % (ev["key"], ev["locale"], ev["tok"], ev["pass"]),
+                      "run-time form differs from CLDR: rendered %r" % vp.text_of(ev["out"]), {"event": ev})
+    return len(trace) - 1
+
+
 def _key(c, r):
     a = c["abs"]
     ms = sorted("%s/%s" % (m["ty"][0], m["form"]) for m in a["members"])
@@ -44,8 +114,11 @@ def check(run):
     run.samples = [cases[len(cases) // 2]["abs"], cases[-1]["abs"]]
     loadfam.replay_load(run, cases, "Trace_Plurals", "Trace_Plurals.cfg", build_features=("json", "quote"),
                         variant="json-quote", key_of=_key, trace_env={"ORACLE": oracle})
+    run.notes["l2_render_events"] = run_l2(run)
     run.exhaustive = True
-    run.assumptions = ["CLDR plural categories are an oracle outside the model: direct icu_plurals calls made by the driver, given to the trace specification as data",
+    run.assumptions = ["L2: a 14-locale probe (incl. pt / pt-PT, en / en-GB, fr / fr-CA) renders counts 0..=200, 10^3, 10^6, 10^9+1 through td_string!, td!, td_plural!, "
+                       "td_plural_ordinal! in two orders of the locales within one process",
+                       "CLDR plural categories are an oracle outside the model: direct icu_plurals calls made by the driver, given to the trace specification as data",
                        "10 locales spanning the CLDR patterns (en fr ru ar pl ja cy ga lv he); literal counts 0 1 2 3 5 11 21 100 1000000 1.5",
                        "parse-time selection through `$t(k, {\"count\": n})`; run-time selection by generated code is the L2 check"]
     return run.finish("every subset of plural forms, cardinal / ordinal / mixed, with and without a colliding normal key; each a 10-locale project; "
